@@ -314,7 +314,7 @@ func TestC17Small(t *testing.T) {
 	rep.Extra["semaphore_sequences"] = semRuns
 	rep.Extra["semaphore_wait_calls_returned"] = grants
 	rep.Extra["semaphore_steps_with_blocked_waiter"] = blocked
-	if blocked == 0 || grants == 0 {
+	if vs.empty() && (blocked == 0 || grants == 0) {
 		core.HarnessError("vacuous: semaphore never blocked a waiter")
 	}
 
@@ -371,7 +371,7 @@ func TestC17Small(t *testing.T) {
 	rep.Extra["addrlist_alphabet"] = len(ops)
 	rep.Extra["addrlist_steps_with_eviction"] = stTotal.evictions
 	rep.Extra["addrlist_steps_at_cap"] = stTotal.atCap
-	if stTotal.evictions == 0 {
+	if vs.empty() && (stTotal.evictions == 0) {
 		core.HarnessError("vacuous: addrlist never had to evict")
 	}
 	rep.Evaluations = semRuns + alRuns
